@@ -87,10 +87,10 @@ def make_config(**kw):
 
 
 class Outcome:
-    __slots__ = ("eid", "text", "exc", "out", "err", "doc", "pairs", "exit")
+    __slots__ = ("eid", "text", "exc", "out", "err", "doc", "pairs", "exit", "final_index")
 
     def __init__(self):
-        self.eid = self.text = self.exc = self.doc = self.pairs = self.exit = None
+        self.eid = self.text = self.exc = self.doc = self.pairs = self.exit = self.final_index = None
         self.out = self.err = ""
 
     @property
@@ -108,6 +108,7 @@ def decode(data: bytes, config=None, exit_on_error=False, parse=True) -> Outcome
     o = Outcome()
     cfg = config if config is not None else make_config(every_pel=True)
     so, se = io.StringIO(), io.StringIO()
+    stream = None
     try:
         with contextlib.redirect_stdout(so), contextlib.redirect_stderr(se):
             # peltool hands the file content (bytes) to DataStream, exactly as here
@@ -118,6 +119,7 @@ def decode(data: bytes, config=None, exit_on_error=False, parse=True) -> Outcome
     except BaseException as e:           # noqa - classify, never hide
         o.exc = e
     o.out, o.err = so.getvalue(), se.getvalue()
+    o.final_index = getattr(stream, "index", None)
     if parse and o.text:
         try:
             o.doc = json.loads(o.text)
@@ -208,11 +210,12 @@ def import_all_repo_modules():
 
 
 class ReadLog:
-    """Deciding monitor for cursor discipline: every DataStream read/skip is
-    recorded as (start, n).  Installed by patching the class in place."""
+    """Deciding monitor for cursor discipline: every movement of a DataStream's cursor is recorded as (start, n).
+    Installed as a data descriptor for `index` on the class, so it sees every implementation of reading/skipping
+    (get_mem, get_int, inc_index, direct assignment) without depending on method names."""
     def __init__(self):
         self.on = False
-        self.events = []       # (stream id, start, n, kind)
+        self.events = []       # (stream id, start, n, kind, n)
         self.installed = False
 
     def install(self):
@@ -220,29 +223,16 @@ class ReadLog:
             return
         DS = repo()["DataStream"]
         log = self
-        orig_get_mem, orig_inc = DS.get_mem, DS.inc_index
-        depth = [0]
 
-        def get_mem(self, num_bytes):
-            if not log.on:
-                return orig_get_mem(self, num_bytes)
-            start = self.index
-            depth[0] += 1
-            try:
-                res = orig_get_mem(self, num_bytes)
-            finally:
-                depth[0] -= 1
-            log.events.append((id(self), start, num_bytes, "r", len(res)))
-            return res
+        def _get(obj):
+            return obj.__dict__.get("_vf_index", 0)
 
-        def inc_index(self, num_bytes):
-            if not log.on or depth[0]:
-                return orig_inc(self, num_bytes)
-            start = self.index
-            res = orig_inc(self, num_bytes)
-            log.events.append((id(self), start, num_bytes, "s", num_bytes))
-            return res
-        DS.get_mem, DS.inc_index = get_mem, inc_index
+        def _set(obj, value):
+            old = obj.__dict__.get("_vf_index")
+            obj.__dict__["_vf_index"] = value
+            if log.on and old is not None and value != old:
+                log.events.append((id(obj), old, value - old, "m", value - old))
+        DS.index = property(_get, _set)
         self.installed = True
 
     def start(self):
